@@ -99,9 +99,11 @@ const VAR_POOL: [&str; 24] = [
     "x", "y", "z", "n", "m", "a", "b", "c", "p", "q", "r", "s", "t", "u", "v", "w", "xs", "ys",
     "acc", "i", "j", "e", "d", "l",
 ];
-const ADV_VAR_POOL: [&str; 14] = [
+const ADV_VAR_POOL: [&str; 20] = [
     "x0", "x1", "a0", "a1", "x2", "a2", "share_f_0", "lab1", "cleanup", "asm_main", "lift_main__5",
     "rax", "x_1", "a_1",
+    // generated-looking names whose numeric suffix is the largest value of an integer type
+    "x18446744073709551615", "a18446744073709551615", "x4294967295", "a4294967295", "x9223372036854775807", "a65535",
 ];
 const COVAR_POOL: [&str; 8] = ["k", "ret", "out", "done", "esc", "brk", "kk", "halt"];
 const DEF_POOL: [&str; 16] = [
